@@ -260,7 +260,14 @@ impl Space for StrNoteSpace {
             const SZ: [u64; 7] = [0, 1, 3, 4, 5, 8, 0xffff_ffff];
             let namesz = SZ[(d[2] / 7) as usize];
             let descsz = SZ[(d[2] % 7) as usize];
-            let blen = [0usize, 11, 12, 20, 32][d[3] as usize];
+            // 0, 11, 12, 20, 32 bytes, or (class 4) exactly the unpadded end of the first note's descriptor
+            let exact = {
+                let a = align.max(1);
+                let ne = 12usize.saturating_add(namesz.min(64) as usize);
+                let ds = if a < 64 && ne % a != 0 { ne + (a - ne % a) } else { ne };
+                ds.saturating_add(descsz.min(64) as usize).min(96)
+            };
+            let blen = [0usize, 11, 12, 20, exact][d[3] as usize];
             let mut buf = vec![0u8; blen];
             for order in [Order::Lsb, Order::Msb] {
                 if blen >= 12 {
